@@ -573,6 +573,59 @@ def sc_larger_again():
     return w.close()
 
 
+def sc_shrunk_at_start():
+    """a scheduler declares the token with 3 units; before it watches the directory another scheduler declares the same token
+    with 1 unit (token.info is rewritten unobserved). What is on disk rules: both then share one unit"""
+    w = World(3, {"a": "p1", "b": "p2"}, {"a": 1, "b": 1})
+    w.arm("init.counted")
+    w.start("p1", wait=False)
+    reached = w.wait_reached("init.counted", "p1", 20)
+    w.disarm("init.counted")
+    w.start("p2", total=1)
+    if reached:
+        w.go("init.counted", "p1")
+    w.started("p1")
+    w.submit("a"); w.acquire("a"); w.startjob("a")
+    w.submit("b")
+    r = w.acquire("b")                  # the only unit is held: refused
+    if r and r.get("acquired"):
+        w.startjob("b"); w.endjob("b"); w.release("b")
+    m = w.mark()
+    w.endjob("a"); w.release("a")
+    w.told("b", m, 10)
+    w.quiescent()
+    r = w.acquire("b")
+    if r and r.get("acquired"):
+        w.startjob("b"); w.endjob("b"); w.release("b")
+    w.quiescent()
+    return w.close()
+
+
+def sc_missing_at_release():
+    """a job ends; the reclaim thread of another scheduler, which watched it, removes its token file before its own scheduler
+    releases: the release finds the file missing. A second job of the same scheduler waits for the unit: it must be told (the
+    deletion event is not for it to act upon: the token is still held in its books until the release)"""
+    w = World(1, {"a": "p1", "b": "p1"}, {"a": 1, "b": 1})
+    w.start("p1"); w.start("p2")
+    w.submit("a"); w.acquire("a"); w.startjob("a")
+    w.wait_event(lambda r: r["e"] == "tok.evt.cached" and r.get("p") == "p2" and r.get("job") == "a", 5)
+    w.submit("b")
+    w.acquire("b")                         # refused: b waits
+    m = w.mark()
+    w.endjob("a")
+    w.wait_event(lambda r: r["e"] == "tok.file.delete" and r.get("p") == "p2" and r.get("job") == "a", 15, m)
+    time.sleep(0.4)                        # (the deletion event has reached p1)
+    m = w.mark()
+    w.release("a")
+    w.told("b", m, 6)
+    w.quiescent()
+    r = w.acquire("b")
+    if r and r.get("acquired"):
+        w.startjob("b"); w.endjob("b"); w.release("b")
+    w.quiescent()
+    return w.close()
+
+
 def sc_again_stale_event():
     """a job ends, its scheduler gives the token back and takes it again for the same job at once (a failed job submitted
     again: same job, same token file name) -- before its own observer thread has handled the deletion event of the release.
@@ -640,6 +693,96 @@ def sc_again_stale_foreign():
     return w.close()
 
 
+def sc_random(seed):
+    """a random walk of two schedulers and three jobs over the life of a token (submit, acquire, start, abort, end, release,
+    submit again asking for another amount), commands to the two processes being issued in pairs at the same time; random
+    short waits let the observer and reclaim threads fall anywhere between the commands. Everything is driven to its end;
+    the whole log must be a behaviour of XpmTokenFS"""
+    import random
+
+    rng = random.Random(seed)
+    total = rng.choice([1, 2, 2, 3, 4])
+    jobs = ["a", "b", "c"]
+    owner = {"a": "p1", "b": "p2", "c": rng.choice(["p1", "p2"])}
+    req = {j: rng.randint(1, total) for j in jobs}
+    w = World(total, owner, req)
+    w.start("p1"); w.start("p2")
+    st = {j: "idle" for j in jobs}
+    again = {j: 0 for j in jobs}
+
+    def enabled(j):
+        return {"idle": ["submit"], "submitted": ["acquire"], "holding": ["startjob", "startjob", "abort"], "running": ["endjob"],
+                "ended": ["release"], "released": ["resubmit"] if again[j] < 1 and sum(again.values()) < 1 else []}[st[j]]
+
+    def begin(j, op):
+        """sends the command; returns what to do when its answer comes"""
+        p = owner[j]
+        if op == "submit":
+            w.emit("h.submit", job=j, p=p)
+            w.send(p, op="submit", job=j, count=w.req[j])
+            return lambda r: st.__setitem__(j, "submitted")
+        if op == "resubmit":
+            again[j] += 1
+            c = w.req[j]       # (the same amount: the model gives a late event about the former file the amount of the present one)
+            w.emit("h.resubmit", job=j, count=c)
+            w.req[j] = c
+            w.emit("h.submit", job=j, p=p)
+            w.send(p, op="submit", job=j, count=c)
+            return lambda r: st.__setitem__(j, "submitted")
+        if op == "acquire":
+            w.send(p, op="acquire", job=j)
+            return lambda r: st.__setitem__(j, "holding") if r and r.get("acquired") else None
+        if op in ("abort", "release"):
+            w.send(p, op="release", job=j)
+            return lambda r: st.__setitem__(j, "released")
+        raise AssertionError(op)
+
+    def step_one(j, op):
+        if op == "startjob":
+            w.startjob(j); st[j] = "running"
+        elif op == "endjob":
+            w.endjob(j); st[j] = "ended"
+        else:
+            done = begin(j, op)
+            done(w.recv(owner[j]))
+
+    for _ in range(rng.randint(10, 24)):
+        cands = [(j, op) for j in jobs for op in enabled(j)]
+        if not cands:
+            break
+        j, op = rng.choice(cands)
+        others = [(k, o) for k, o in cands if owner[k] != owner[j] and o not in ("startjob", "endjob") and not (o == op == "resubmit")]
+        if op not in ("startjob", "endjob") and others and rng.random() < 0.5:
+            k, o = rng.choice(others)             # two commands at the same time, one per process
+            d1, d2 = begin(j, op), begin(k, o)
+            d1(w.recv(owner[j])); d2(w.recv(owner[k]))
+        else:
+            step_one(j, op)
+        if rng.random() < 0.4:
+            time.sleep(rng.choice([0.0, 0.01, 0.05, 0.2]))
+    # everything to its end
+    for _ in range(40):
+        busy = [j for j in jobs if st[j] not in ("idle", "released")]
+        if not busy:
+            break
+        for j in busy:
+            if st[j] == "submitted":
+                step_one(j, "acquire")
+            elif st[j] == "holding":
+                step_one(j, "startjob")
+            elif st[j] == "running":
+                step_one(j, "endjob")
+            elif st[j] == "ended":
+                step_one(j, "release")
+        time.sleep(0.05)
+    else:
+        w.problems.append(f"random walk {seed}: jobs left {st}")
+    w.quiescent()
+    r = w.close()
+    r["seed"] = seed
+    return r
+
+
 def sc_info_torn():
     """the only scheduler dies while it rewrites token.info (the file is left empty: truncated, not yet written); the
     next scheduler declares the token again and uses it"""
@@ -658,7 +801,7 @@ def sc_info_torn():
     return w.close()
 
 
-SCENARIOS = {"again_stale_foreign": sc_again_stale_foreign, "again_stale_event": sc_again_stale_event, "late_start_ended": sc_late_start_ended, "release_raced": sc_release_raced, "two_killed_orphans": sc_two_killed_orphans, "larger_again": sc_larger_again, "info_torn": sc_info_torn, "enlarged": sc_enlarged, "enlarged_while_held": sc_enlarged_while_held, "orphan_killed": sc_orphan_killed, "late_start_two": sc_late_start_two, "race_in_create": sc_race_in_create, "contention": sc_contention, "halfwritten": sc_halfwritten, "owner_dies_running": sc_owner_dies_running,
+SCENARIOS = {"shrunk_at_start": sc_shrunk_at_start, "missing_at_release": sc_missing_at_release, "again_stale_foreign": sc_again_stale_foreign, "again_stale_event": sc_again_stale_event, "late_start_ended": sc_late_start_ended, "release_raced": sc_release_raced, "two_killed_orphans": sc_two_killed_orphans, "larger_again": sc_larger_again, "info_torn": sc_info_torn, "enlarged": sc_enlarged, "enlarged_while_held": sc_enlarged_while_held, "orphan_killed": sc_orphan_killed, "late_start_two": sc_late_start_two, "race_in_create": sc_race_in_create, "contention": sc_contention, "halfwritten": sc_halfwritten, "owner_dies_running": sc_owner_dies_running,
              "dies_mid_create": sc_dies_mid_create, "partial_returns": sc_partial_returns, "mixed": sc_mixed}
 
 if __name__ == "__main__":
